@@ -805,6 +805,153 @@ impl Stream for Edits
 	}
 }
 
+/// one type-breaking edit of a generated well-typed program (typedit.rs)
+struct GeneratedEdits;
+impl Stream for GeneratedEdits
+{
+	fn name(&self) -> String
+	{
+		"edits-of-generated-programs".into()
+	}
+	fn crash_is_failure(&self) -> bool
+	{
+		// a compiler crash on an ill-typed program is C02's subject
+		false
+	}
+	fn count(&self, tier: Tier) -> u64
+	{
+		tier.pick(60_000, 600_000)
+	}
+	fn choice_len(&self) -> usize
+	{
+		1700
+	}
+	fn stride(&self) -> u64
+	{
+		4
+	}
+	fn run(&self, _idx: u64, c: &mut Choices, ctx: &RunCtx) -> CaseOut
+	{
+		let mut out = CaseOut::default();
+		let profile = if c.flag() { progen::Profile::calls() } else { progen::Profile::exec() };
+		let mut prog = progen::generate(c, profile);
+		let site = match crate::typedit::break_one_type(&mut prog, c)
+		{
+			Some(s) => s,
+			None =>
+			{
+				out.discarded = Some("program offers no site for a type-breaking edit".into());
+				return out;
+			}
+		};
+		let src = print_program(&prog, Layout::plain(), None);
+		out.key = fnv(&src);
+		out.nontrivial = true;
+		out.class(format!("site:{}", site.label()));
+		let o = alpha::analyze_one(&src);
+		let detail = json!({"source": src, "site": site.label(), "result": o.summary()});
+		if let Some(e) = &o.internal_error
+		{
+			out.fail(format!("internal error {}", e.chars().take(50).collect::<String>()), detail);
+		}
+		else if o.ok
+		{
+			out.fail(format!("ill-typed program accepted: wrong type as {}", site.label()), detail);
+		}
+		else if !o.codes.iter().any(|x| (500..=552).contains(x) || *x == 333)
+		{
+			out.fail(format!("ill-typed program ({}) rejected with {:?}, none of which is a typing error", site.label(), o.codes), detail);
+		}
+		if ctx.want_sample
+		{
+			out.sample = Some(json!({"site": site.label(), "codes": o.codes, "source_head": src.chars().take(500).collect::<String>()}));
+		}
+		out
+	}
+}
+
+/// operators on pointers and structures: equality of pointers of one type is
+/// documented (tests/samples/valid/comparison_eq_pointer.pn), ordering is not
+/// (invalid/comparison_ge_pointer.pn, E550), arithmetic is for integers only
+struct PointerMatrix;
+const POINTEES: &[&str] = &["i32", "u8", "bool", "&i32", "Pt"];
+impl Stream for PointerMatrix
+{
+	fn name(&self) -> String
+	{
+		"pointer-and-structure-operators".into()
+	}
+	fn count(&self, _tier: Tier) -> u64
+	{
+		(OPS.len() * POINTEES.len() * 2) as u64
+	}
+	fn exhaustive(&self) -> bool
+	{
+		true
+	}
+	fn run(&self, idx: u64, _c: &mut Choices, ctx: &RunCtx) -> CaseOut
+	{
+		let mut out = CaseOut::default();
+		out.key = idx;
+		out.nontrivial = true;
+		let op = OPS[(idx as usize / 2) / POINTEES.len()];
+		let t = POINTEES[(idx as usize / 2) % POINTEES.len()];
+		let on_pointer = idx % 2 == 0;
+		let text = match op
+		{
+			OpKind::Arith(s) | OpKind::Bitwise(s) | OpKind::Shift(s) | OpKind::Equality(s) | OpKind::Ordering(s) => s,
+		};
+		let pre = "struct Pt\n{\n\tx: i32,\n\ty: i32,\n}\n\n";
+		let (l, r, decl) = if on_pointer
+		{
+			("&x", "&y", format!("x: &{t}, y: &{t}"))
+		}
+		else
+		{
+			("x", "y", "x: Pt, y: Pt".to_string())
+		};
+		if !on_pointer && t != "Pt"
+		{
+			out.nontrivial = false;
+			return out;
+		}
+		let is_cmp = matches!(op, OpKind::Equality(_) | OpKind::Ordering(_));
+		let src = if is_cmp
+		{
+			format!("{pre}fn f({decl}) -> i32\n{{\n\tvar r: i32 = 0;\n\tif {l} {text} {r}\n\t{{\n\t\tr = 1;\n\t}}\n\treturn: r\n}}\n")
+		}
+		else
+		{
+			format!("{pre}fn f({decl}) -> i32\n{{\n\tvar r = {l} {text} {r};\n\treturn: 0\n}}\n")
+		};
+		let expect_ok = on_pointer && matches!(op, OpKind::Equality(_));
+		let o = alpha::compile_modules(&[("main.pn".into(), src.clone())], alpha::Options::default());
+		let label = format!("{} {} {}", if on_pointer { format!("&{}", t) } else { "Pt".into() }, text, if on_pointer { format!("&{}", t) } else { "Pt".into() });
+		let detail = json!({"source": src, "result": o.summary()});
+		if let Some(e) = &o.internal_error
+		{
+			out.fail(format!("internal error {}", e.chars().take(50).collect::<String>()), detail);
+		}
+		else if expect_ok && !o.ok
+		{
+			out.fail(format!("documented operator rejected: {} {:?}", label, o.codes), detail);
+		}
+		else if !expect_ok && o.ok
+		{
+			out.fail(format!("ill-typed operator accepted: {}", label), detail);
+		}
+		else if !expect_ok && !o.codes.iter().any(|c| (500..=552).contains(c))
+		{
+			out.fail(format!("ill-typed operator {} rejected with {:?}, none of which is a typing error", label, o.codes), detail);
+		}
+		if ctx.want_sample
+		{
+			out.sample = Some(json!({"source": src, "expected_accepted": expect_ok}));
+		}
+		out
+	}
+}
+
 /// every accepted generated program satisfies the typing invariants
 struct Invariants;
 impl Stream for Invariants
@@ -865,7 +1012,7 @@ impl Check for C07
 	}
 	fn rule(&self) -> String
 	{
-		"(a) exhaustive matrix: 16 binary/comparison operators x 13 x 13 primitive operand types in a one-function module (2704 cells), plus 13 x 13 `as` casts and unary - and ! on every type (195 cells); (b) 20 kinds of typed edits with a known E5xx/E333 code (assignment, initialisation, argument type/count, operand mismatch, index type, index/length/member on a non-aggregate, address assignment, address depth, bool operand, casts to bool / pointer / from struct, member assignment, return value) over random pairs of integer types inside valid surroundings; (c) a walker over the resolved trees of every accepted matrix cell and of generated programs asserting: both operands of every binary operator and comparison have the identical recorded type, operator classes (arithmetic on integers, bitwise/shift on u8..u128, negation on signed, ! on unsigned/bool, no ordering of pointers), initialiser/declared, argument/parameter, return value/return type identical (coercions are explicit Autocoerce nodes), primitive casts only between primitives, indices usize. Oracle: allowed cells accepted, forbidden cells rejected with E550/E551/E552; edits rejected with their code; invariants hold. Cells the docs do not settle (char8 arithmetic, usize bitwise/shift, bool ordering, identity casts) are run and walked but not asserted. Non-trivial: every case; distinct by source.".into()
+		"(a) exhaustive matrix: 16 binary/comparison operators x 13 x 13 primitive operand types in a one-function module (2704 cells), plus 13 x 13 `as` casts and unary - and ! on every type (195 cells); (b) 20 kinds of typed edits with a known E5xx/E333 code (assignment, initialisation, argument type/count, operand mismatch, index type, index/length/member on a non-aggregate, address assignment, address depth, bool operand, casts to bool / pointer / from struct, member assignment, return value) over random pairs of integer types inside valid surroundings; (b2) well-typed generated programs with ONE type-breaking edit at a site whose required type is fixed by its surroundings — a value argument in any position of a call, a structure argument replaced by a literal of another structure, a typed initialiser, a return value, the right operand of an operator/comparison whose left operand has an evident type, an array index — replaced by a suffixed literal of another type: must be rejected with a typing code (E500-E552, E333); (b3) every operator on two pointers of one type (pointees i32, u8, bool, &i32, Pt) and on two structures: only == and != of pointers are accepted; (c) a walker over the resolved trees of every accepted matrix cell and of generated programs asserting: both operands of every binary operator and comparison have the identical recorded type, operator classes (arithmetic on integers, bitwise/shift on u8..u128, negation on signed, ! on unsigned/bool, no ordering of pointers), initialiser/declared, argument/parameter, return value/return type identical (coercions are explicit Autocoerce nodes), primitive casts only between primitives, indices usize. Oracle: allowed cells accepted, forbidden cells rejected with E550/E551/E552; edits rejected with their code; invariants hold. Cells the docs do not settle (char8 arithmetic, usize bitwise/shift, bool ordering, identity casts) are run and walked but not asserted. Non-trivial: every case; distinct by source.".into()
 	}
 	fn assumptions(&self) -> Vec<String>
 	{
@@ -876,6 +1023,6 @@ impl Check for C07
 	}
 	fn streams(&self) -> Vec<Box<dyn Stream>>
 	{
-		vec![Box::new(Matrix), Box::new(CastsAndUnary), Box::new(Edits), Box::new(Invariants)]
+		vec![Box::new(Matrix), Box::new(CastsAndUnary), Box::new(PointerMatrix), Box::new(Edits), Box::new(GeneratedEdits), Box::new(Invariants)]
 	}
 }
